@@ -2,7 +2,7 @@
 from checks import pfcp_common as pc
 
 MANIFEST = dict(
-    text="Kernel-checked for the PFCP layer: push appends iff the queue is below capacity (BUFFQ_LEN from T-gen), otherwise the NEWEST packet is dropped and nothing else changes; other PDRs' queues and all other session fields are untouched; a buffer item pushes iff BUFF and the packet is non-empty, a Downlink Data Report is sent iff NOCP, to the owning node with the peer's SEID; Close drops the queues; no per-session rule operation touches a queue; in every reachable state every queue holds at most BUFFQ_LEN packets. Release path (Gtp5g.UpdateFAR/applyAction/WritePacket, model/Release.v, after fix 6f99407): on BUFF->FORW every queued packet of every PDR the data plane relates to the FAR is emitted exactly once, in queue order, as the G-PDU of C14 with the FAR's UPDATED peer/port/TEID and the PDR's first non-zero QFI (the reference decoder reads back teid, qfi and payload), afterwards those queues are empty; BUFF->DROP empties them without emission; otherwise nothing leaves and no queue changes; nothing survives the session. Tie: differential run incl. bursts beyond the capacity + queue-content monitor; full-stack release scenarios (real PfcpServer + real Gtp5g over the simulated kernel, BUFFER multicasts through the real netlink listener, two fake gNB sockets) compared step by step with the model, plus a monitor on the gNB datagrams.",
+    text="Kernel-checked for the PFCP layer: push appends iff the queue is below capacity (BUFFQ_LEN from T-gen), otherwise the NEWEST packet is dropped and nothing else changes; other PDRs' queues and all other session fields are untouched; a buffer item pushes iff BUFF and the packet is non-empty, a Downlink Data Report is sent iff NOCP, to the owning node with the peer's SEID; Close drops the queues; no per-session rule operation touches a queue; in every reachable state every queue holds at most BUFFQ_LEN packets. Release path (Gtp5g.UpdateFAR/applyAction/WritePacket, model/Release.v, after fix 6f99407): on BUFF->FORW every queued packet of every PDR the data plane relates to the FAR is emitted exactly once, in queue order, as the G-PDU of C14 with the FAR's UPDATED peer/port/TEID and the PDR's first non-zero QFI (the reference decoder reads back teid, qfi and payload), afterwards those queues are empty; BUFF->DROP empties them without emission; otherwise nothing leaves and no queue changes; nothing survives the session. Tie: differential run incl. bursts beyond the capacity + queue-content monitor; full-stack release scenarios (real PfcpServer + real Gtp5g over the simulated kernel, BUFFER multicasts through the real netlink listener, two fake gNB sockets) compared step by step with the model, plus a monitor on the gNB datagrams. The way in - the BUFFER notification of the gtp5g module, walked by hand in buffnetlink.decodbuffer - has an octet-level model (model/BuffDec.v, shape read from the source: C13_buffer_decoder_source_shape): for every order of the attributes, repetitions, attributes of other types in between, every packet length (the padding is not part of the packet) and every 64-bit SEID the walk returns exactly what the message carries (C13_buffer_notification_decoded); the malformed bodies on which the Go code faults or never returns (length 0: endless walk) are part of the model and of the differential run against the real function.",
     note='The release path runs over the simulated kernel (SimKernel lists RELATED_TO_PDR in ascending PDR id order; a queue outlives Remove PDR - modelled as is). A release-mode replay file is replayed through the full stack (python3 check.py C13 --replay f). ',
     technique="Coq lemmas on the emission / queue / reference-count functions + differential run + trace monitor",
     design='4/C13')
@@ -38,6 +38,119 @@ def release_phase(ctx, info, coverage, cases=None):
                        "implementation_trace": r["impl"][ci][max(0, si - 2):si + 1]}, no_input=True)
 
 
+def buffdec_cases(ctx):
+    """octet strings for decodbuffer: well-formed notifications (any attribute order, repetitions, unknown attributes, flag
+    bits in the type, packets of every length mod 4) and malformed ones (truncated, lengths off by a few, random octets);
+    two with an attribute of length 0 (the walk never ends) go last"""
+    import random
+    rnd = random.Random(ctx.seed + 1313)
+    n = 400 if ctx.tier == "quick" else 6000
+
+    def attr(ty, payload, flags=0, lie=0):
+        ln = 4 + len(payload) + lie
+        pad = (-len(payload)) % 4
+        return ln.to_bytes(2, "little") + (ty | flags).to_bytes(2, "little") + payload + bytes(pad)
+
+    def good():
+        parts = []
+        kinds = ["pkt", "seid", "id", "act"] + [rnd.choice(["pkt", "seid", "id", "act", "other", "other"]) for _ in range(rnd.choice([0, 0, 1, 2, 3]))]
+        rnd.shuffle(kinds)
+        if rnd.random() < 0.15:
+            kinds = [k for k in kinds if k != rnd.choice(["pkt", "seid", "id", "act"])]
+        for k in kinds:
+            fl = rnd.choice([0, 0, 0, 0x8000, 0x4000])
+            if k == "pkt":
+                parts.append(attr(4, bytes(rnd.randrange(256) for _ in range(rnd.choice([0, 1, 2, 3, 4, 5, 7, 8, 20, 61, 1400]))), fl))
+            elif k == "seid":
+                parts.append(attr(6, rnd.choice([0, 1, 2 ** 32, 2 ** 63, 2 ** 64 - 1, rnd.randrange(2 ** 64)]).to_bytes(8, "little"), fl))
+            elif k == "id":
+                parts.append(attr(5, rnd.choice([0, 1, 65535, rnd.randrange(65536)]).to_bytes(2, "little"), fl))
+            elif k == "act":
+                parts.append(attr(7, rnd.choice([4, 12, 0, 65535, rnd.randrange(65536)]).to_bytes(2, "little"), fl))
+            else:
+                parts.append(attr(rnd.choice([1, 2, 3, 8, 9, 100, 16383]), bytes(rnd.randrange(256) for _ in range(rnd.choice([0, 1, 4, 6]))), fl))
+        return b"".join(parts)
+
+    out = []
+    for i in range(n):
+        b = good()
+        x = rnd.random()
+        if x < 0.55:
+            pass
+        elif x < 0.7:
+            b = b[:rnd.randrange(len(b) + 1)]                      # truncated
+        elif x < 0.85 and len(b) >= 4:
+            j = rnd.randrange(0, len(b))
+            b = b[:j] + bytes([(b[j] + rnd.choice([1, 2, 3, 252, 253, 255])) % 256]) + b[j + 1:]   # one octet off
+        else:
+            b = bytes(rnd.randrange(256) for _ in range(rnd.choice([0, 1, 3, 4, 5, 8, 12, 30])))
+        out.append(b)
+    # a zero length anywhere would spin: keep such inputs for the end, and only two of them
+    def has_zero_len(b):
+        i = 0
+        while i + 4 <= len(b):
+            ln = int.from_bytes(b[i:i + 2], "little")
+            if ln == 0:
+                return True
+            i += (ln + 3) & ~3
+        return False
+    out = [b for b in out if not has_zero_len(b)]
+    out += [bytes([0, 0, 9, 0]), attr(6, (77).to_bytes(8, "little")) + bytes([0, 0, 5, 0, 1, 0, 0, 0])]
+    return [b.hex() for b in out]
+
+
+def buffdec_phase(ctx, info, coverage):
+    """buffnetlink.decodbuffer: the real function against model/BuffDec.v on the same octet strings"""
+    from lib import common
+    from lib.common import clist
+    cases = buffdec_cases(ctx)
+    res, log = common.run_harness(ctx, info["harness"], "buffdec", cases, timeout=600)
+    if res is None:
+        ctx.violation({"property": "C13", "broken": "buffdec harness run failed", "log": log[-1500:]}, no_input=True)
+        return
+    items = []
+    for h, o in zip(cases, res):
+        bs = clist([str(x) for x in bytes.fromhex(h)])
+        if o["res"] == "ok":
+            pk = "(Some %s)" % clist([str(x) for x in bytes.fromhex(o["pkt"])]) if o["has_pkt"] else "None"
+            ob = "(OOk %d %d %d %s)" % (o["seid"], o["pdr"], o["action"], pk)
+        else:
+            ob = {"err": "OErr", "panic": "OPanic", "loop": "OLoop"}[o["res"]]
+        items.append("(%s, %s)" % (bs, ob))
+    body = ("Inductive obs := OOk (seid pdr action : N) (pkt : option (list N)) | OErr | OPanic | OLoop.\n"
+            "Definition oeq (a b : option (list N)) : bool := match a, b with None, None => true | Some x, Some y => list_N_eqb x y | _, _ => false end.\n"
+            "Definition agrees (c : list N * obs) : bool :=\n"
+            "  match dec_buffer (fst c), snd c with\n"
+            "  | DOk s, OOk seid pdr action pkt => (b_seid s =? seid) && (b_pdr s =? pdr) && (b_action s =? action) && oeq (b_pkt s) pkt\n"
+            "  | DErr, OErr => true | DPanic, OPanic => true | DLoop, OLoop => true\n"
+            "  | DOut, _ => true        (* a length beyond the body: outside the model *)\n"
+            "  | _, _ => false end.\n"
+            "Fixpoint bad_idx {A} (f : A -> bool) (l : list A) (i : N) : list N :=\n"
+            "  match l with [] => [] | x :: r => (if f x then [] else [i]) ++ bad_idx f r (i + 1) end.\n"
+            "Definition cases : list (list N * obs) := \n" + clist(items) + ".\n"
+            "Definition mism := Eval vm_compute in bad_idx agrees cases 0.\n"
+            "Definition nout := Eval vm_compute in N.of_nat (List.length (filter (fun c => match dec_buffer (fst c) with DOut => true | _ => false end) cases)).\n")
+    out, clog = common.run_coq_cases(ctx, "cases_c13_buffdec", body, ["Bytes", "Nlattr", "RulesGen", "BuffDec"], ["mism", "nout"])
+    if out is None:
+        ctx.violation({"property": "C13", "broken": "buffdec cases do not compile: " + clog[-1200:]}, no_input=True)
+        return
+    mm = common.parse_N_list(out["mism"])
+    kinds = {}
+    for o in res:
+        kinds[o["res"]] = kinds.get(o["res"], 0) + 1
+    coverage["buffdec"] = {"inputs": len(cases), "outcomes": kinds, "model_impl_disagreements": len(mm), "outside_model": out["nout"].strip()}
+    coverage["evaluations"] = coverage.get("evaluations", 0) + len(cases)
+    # the specification on the implementation's own answers: a well-formed notification in the module's form
+    for i in mm[:1]:
+        ctx.violation({"property": "C13", "what": "decodbuffer and model/BuffDec.v disagree on this notification body", "mode": "buffdec",
+                       "octets": cases[i], "implementation": res[i]})
+
+
+def both_phases(ctx, info, coverage):
+    release_phase(ctx, info, coverage)
+    buffdec_phase(ctx, info, coverage)
+
+
 def run(ctx, replay=None):
     if replay:
         import json
@@ -53,4 +166,4 @@ def run(ctx, replay=None):
             release_phase(ctx, info, coverage, cases=[r["case"]])
             return ctx.finish(coverage, [pc.PFCP_NOTE])
     return pc.run_property(ctx, "C13", pc.mon_c13, GEN, N_QUICK, N_THOROUGH, replay=replay, rule=RULE,
-                           assumptions=[pc.PFCP_NOTE], finding_sig=None, directed=pc.directed_c13, extra_phase=release_phase)
+                           assumptions=[pc.PFCP_NOTE], finding_sig=None, directed=pc.directed_c13, extra_phase=both_phases)
